@@ -76,7 +76,14 @@ PROPS = {
     "C15": P("GotranxProofs.Properties.C15",
              ["Gx.C15.gname_injective", "Gx.C15.imported_nodup", "Gx.C15.append_underscore_inj"],
              [],
-             ms.c15_run, ms.c15_case, level="other"),
+             ms.c15_run, ms.c15_case, level="other",
+             explanation="Level 'other': the Lean part covers the renaming function of the importer (gname_injective: the reserved-suffix "
+                         "renaming is injective under Myokit's unique-uname guarantee; imported_nodup). Myokit's formats, its expression "
+                         "evaluator and its sympy writer are third-party code outside the model: the dynamics are decided by differential runs - "
+                         "generated and crafted Myokit models (nested variables, names that clash with sympy / the .ode language / the generated "
+                         "code, the time variable under other names, if / piecewise, every Myokit operator) are imported, saved, reloaded, and the "
+                         "generated rhs is compared with Model.evaluate_derivatives at the initial and at perturbed states; export back to Myokit "
+                         "is compared value by value and unit by unit."),
     "C16": P("GotranxProofs.Properties.C16",
              ["Gx.C16.nested_regular", "Gx.C16.nested_at_singular", "Gx.C16.asCoded_le_one", "Gx.C16.asCoded_two_doubles"],
              [],
@@ -88,7 +95,13 @@ PROPS = {
     "C18": P("GotranxProofs.Properties.C18",
              ["Gx.C18.ode2py_plumbing", "Gx.C18.ode2c_plumbing", "Gx.C18.no_option_dropped", "Gx.C18.config_keys", "Gx.C18.scheme_options_reach_schemes", "Gx.C18.effective_cfg", "Gx.C18.effective_cli"],
              ["Gx.Pins.cli_ode2py_forwarding", "Gx.Pins.cli_ode2py_complete", "Gx.Pins.scheme_members_accepted"],
-             cs.c18_run, cs.c18_case, level="other"),
+             cs.c18_run, cs.c18_case, level="other",
+             explanation="Level 'other': the Lean part decides the option plumbing completely (finite tables re-extracted from cli/__init__.py, "
+                         "gotran2py.py, gotran2c.py and by running cli.utils.add_schemes with a recording stub on every run; theorems ode2py_plumbing, "
+                         "ode2c_plumbing, no_option_dropped, config_keys, scheme_options_reach_schemes are re-checked by lake build). typer's parsing, "
+                         "the configuration-file lookup and the file system are not modelled: they are exercised by running `python -m gotranx ...` "
+                         "in scratch directories over random option / configuration combinations and comparing the written bytes with get_code and "
+                         "with a module composed directly from CodeGenerator methods; invalid and missing models must exit non-zero without output."),
     "C19": P("GotranxProofs.Properties.C19",
              ["Gx.C19.eval_rename", "Gx.C19.fv_rename", "Gx.C19.wellScoped_rename", "Gx.C19.capture_witness"],
              [],
